@@ -72,9 +72,17 @@ def _db_of(st) -> dict:
 
 
 def simulate(module: str, cfg: str, num: int, depth: int, seed: int) -> tuple[list, "tlc.TlcResult"]:
-    d = tlc.scratch_root() / f"sim-{cfg}-{seed}"
-    d.mkdir(parents=True, exist_ok=True)
-    r = tlc.run_tlc(module, cfg=cfg, simulate=f"file={d}/tr,num={num}", depth=depth, seed=seed, workers=1)
+    # TLC's simulator was once seen waiting forever for a worker that had died at start-up (main thread parked in
+    # Simulator.simulate's queue.take, < 1 s of CPU after 20 min, machine under full load): a run that exceeds a generous
+    # bound is killed and repeated - the seed makes the repetition the same run
+    r = None
+    for attempt in range(3):
+        d = tlc.scratch_root() / f"sim-{cfg}-{seed}-{attempt}"
+        d.mkdir(parents=True, exist_ok=True)
+        r = tlc.run_tlc(module, cfg=cfg, simulate=f"file={d}/tr,num={num}", depth=depth, seed=seed, workers=1,
+                        timeout=240 + 2 * num)
+        if r.rc != 124:
+            break
     files = sorted(glob.glob(f"{d}/tr*"))
     return files, r
 
